@@ -31,6 +31,24 @@ P = {
          "hash seeds sampled (6 quick / 32 thorough); histories of length <= 3", TECH + "schedule exploration in the specification, cross-process replay, hook traces", "6 C09"),
  "C10": ("TLC applies block / entry / line permutations to sampled structural models and checks model and layout equality on the specification; both texts are loaded in the real library and compared (ODE equality, bytes of numpy / C output)",
          "one permutation step per text (swaps, reversal, rotation generate the group)", TECH + "spec-to-code replay", "6 C10"),
+ "C11": ("every construct of the expression corpus and every structural model (components, units, descriptions) goes through save -> load -> generate -> evaluate and is compared with the specification's values by name; declared atoms (names, kinds, defaults, units, descriptions, components) of the reloaded model are compared with the declaration",
+         "the specification's share is the expected observation and the enumeration (Save is the identity on the abstract model)", TECH + "spec-to-code replay through save/load", "6 C11"),
+ "C13": ("TLC checks on every two-component structural model that both halves of a split have exactly the missing variables they use but do not define, partition the states, and - executed with the other half's values - reproduce the full model (rhs, monitor, Euler, missing_values); the real to_ode() / model - C halves are generated for numpy, jax and C and compared by name; emitted code of the repository's split example is trace-validated",
+         "two components; missing values fed from the full model's meaning", TECH + "spec-to-code replay + trace validation", "6 C13"),
+ "C14": ("batch semantics = map of the scalar semantics: every generated function is called once with (n, N) arrays whose columns are the specification's input points (per-column parameters and time) for the expression corpus, the rate templates of all schemes and structural models; column j is compared with the specification's value for point j",
+         "N = number of spec input points (4..15 columns)", TECH + "vectorised spec-to-code replay", "6 C14"),
+ "C15": ("MyokitScope.tla generates scoped Myokit models (nested variables, clashing local names, names of the sympy namespace) with their meaning over paths; each is rendered as .mmt, cross-checked with Myokit's own evaluate_derivatives (a disagreement discards the case), imported, saved, reloaded and evaluated, and converted back to Myokit; the repository's .mmt / CellML files are compared with Myokit's derivatives",
+         "Myokit trusted as second opinion; 2 components, 2 nesting levels", TECH + "spec-to-code replay with Myokit as cross-check", "6 C15"),
+ "C16": ("a catalogue of removable singularities composed by sum, product and scaling, with the reference meaning (limit at the singular point, original value elsewhere) evaluated by TLC; remove_singularities() of the real library is evaluated on and off every singular point; non-removable and singularity-free expressions must stay untouched",
+         "catalogue of 7 functions x 5 arguments; the doubled expression for >= 2 singularities is a recorded known finding (pinned by a test)", TECH + "spec-to-code replay with known-findings file", "6 C16"),
+ "C17": ("decorations (comment lines at six placements with 30 adversarial strings, blank lines, indentation, tabs, CRLF, continuation, unit annotations) of sampled structural models; TLC checks that stripping the decoration recovers the text; each decorated text is loaded in a child process (hang = violation) and compared with the plain model: components, layout, numerics",
+         "the specification's share is the enumeration and the expected observation (comments are inert by definition in the model)", TECH + "spec-to-code replay in child processes", "6 C17"),
+ "C18": ("Cli.tla models one invocation (flags, configuration file, model validity) as ParseArgs/ReadConfig/Validate/Load/Generate/Write; TLC checks write-only-after-success (action property), exit status and the override rule on all 298 368 invocations; a stratified sample is run through the real typer application and the written bytes are compared with the API called with the effective options; cellml2ode and python -m gotranx subprocesses",
+         "automatic pyproject discovery is not judged (black's project-root rule); formatter availability is a constant of the model", TECH + "spec-to-code replay through typer", "6 C18"),
+ "C19": ("MC_Ident executes the emitted statements in one flat namespace that contains the template's own locals: without the reserved-name check TLC reports the capturing identifiers, with it C19_NoCapture holds; 85 identifiers x 3 roles x 3 backends are replayed: refused by the loader, or results equal to the renamed model; emitted code of the repository's models is trace-validated (rule redefinition)",
+         "identifier universe of 85 names", TECH + "flat-namespace execution model, spec-to-code replay, trace validation", "6 C19"),
+ "C20": ("MC_Depth: dependency chains of every depth up to 45, diamonds, conditionals; the reference expands every intermediate and differentiates with the specification's own differentiator; sympytools.states_matrix / rhs_matrix / jacobi_matrix are evaluated with exact substitution and compared entry by entry, state order against the generated code",
+         "exponentially growing shapes (diamond, conditional) capped at depth 12 / 11", TECH + "independent differentiator, spec-to-code replay", "6 C20"),
 }
 
 
